@@ -15,7 +15,7 @@ import re
 
 from .. import core, psx
 from .. import c13_lib as L
-from ..c13_units import PREAMBLE, QUICK_OPS, all_units
+from ..c13_units import PREAMBLE, QUICK_OPS, THOROUGH_OPS_LIB, all_units
 from ..core import R11
 
 LEVEL = "exploration"
@@ -61,7 +61,8 @@ def _multi(cfgs, fn, workers=3):
 
 
 def _chunk(n):
-    return max(8, -(-n // (core.NCPU * 2)))
+    # ~10 TUs per configuration (three configurations run concurrently): loading the PCH costs more than a record
+    return max(8, -(-n // 10))
 
 
 # ------------------------------------------------------------------------------------------------ sweeps
@@ -105,7 +106,9 @@ def check(run):
     tier = run.tier
     units = all_units()
     by_name = {u.name: u for u in units}
-    ops_units = units if tier == "thorough" else [by_name[n] for n in QUICK_OPS]
+    ops_units = [by_name[n] for n in QUICK_OPS]
+    if tier == "thorough":   # + every generated unit + a spread of further library units
+        ops_units += [u for u in units if (not u.lib or u.name in THOROUGH_OPS_LIB) and u not in ops_units]
     cfgs = core.CFG6
     core.warm_pch(cfgs)
     n_eval = 0
@@ -115,8 +118,11 @@ def check(run):
     def mark(name):
         phase[name] = round(run.elapsed() - sum(phase.values()), 1)
 
+    written = [0]
+
     def report(key, what, art):
-        if run.match_known(key) is None:
+        if run.match_known(key) is None and written[0] < 60:   # finish() prints at most 50
+            written[0] += 1
             run.violation(key, what, run.write_replay(key, dict(art, what=what)))
         else:
             run.violation(key, what)
@@ -248,9 +254,9 @@ def check(run):
     n_sweep = n_skipped = 0
     per_rep = {}
     done_cfgs = []
-    for cfg, flags in sweep_cfgs:
-        if run.time_left() < 420:
-            break
+
+    def do_sweep(cfg, flags):
+        nonlocal n_sweep, n_skipped
         stats, viols = build_sweeps(os.path.join(run.wd, "sweep"), cfg, flags, ops_units, accepted[cfg.name], 3)
         want = sum(len(accepted[cfg.name][u.name]) + len(R11) for u in ops_units)
         if len(stats) != want:
@@ -275,12 +281,11 @@ def check(run):
                                "rep": v["rep"], "op": v["op"], "a": v["a"], "b": v["b"]})
         if not samples or "sweep" not in samples[-1]:
             samples.append({"sweep": [s for s in stats if s["rep"] in ("int8_t", "float")][:4]})
-    n_eval += n_sweep
-    mark("sweeps")
 
     # ---- 5. thorough: every one of the 2^32 float bit patterns through unit(x).in(unit)
     f32 = {"float_patterns_roundtripped": 0, "float_2pow32_complete": False}
-    if tier == "thorough":
+
+    def do_f32():
         f_units = [by_name["meters"], by_name["gen.MPS"]]
         wd = os.path.join(run.wd, "f32")
         os.makedirs(wd, exist_ok=True)
@@ -316,7 +321,19 @@ def check(run):
                            {"kind": "value", "cfg": [cfg.cxx, cfg.std], "flags": flags, "unit": v["unit"], "rep": "float",
                             "op": "roundtrip", "a": v["a"], "b": ""})
         f32["float_2pow32_complete"] = complete
-        n_eval += f32["float_patterns_roundtripped"]
+        mark("f32")
+
+    # order: the two main sweep configurations, then (thorough) all 2^32 float patterns, then the extra sweep
+    # configurations while the deadline allows
+    for i, (cfg, flags) in enumerate(sweep_cfgs):
+        if i == 2:
+            mark("sweeps_main")
+            do_f32()
+        if i >= 2 and run.time_left() < 420:
+            break
+        do_sweep(cfg, flags)
+    n_eval += n_sweep + f32["float_patterns_roundtripped"]
+    mark("sweeps" if tier == "quick" else "sweeps_extra")
 
     if len(nontrivial) < 2:
         raise core.InfraError("vacuity: fewer than 2 sweep instances saw more than one distinct result")
@@ -327,7 +344,7 @@ def check(run):
                  "compiler configurations, 16 facts each; (b) result types: ops-units x 11 reps x every operator "
                  "(same-unit + - %% unary+- += -=, six comparisons, scalar * / *= /= with scalar in {R, int32_t, double}) "
                  "x 6 configurations, decltype vs the raw operator's decltype; (c) acceptance probe of each such "
-                 "operator use x 6 configurations; (d) compiled value sweeps per (unit, rep, operator): all 65536 operand "
+                 "operator use x 6 configurations (quick: scalar type R only); (d) compiled value sweeps per (unit, rep, operator): all 65536 operand "
                  "pairs for 8-bit reps, edge-window pairs for 16/32/64-bit, structured floating pairs; unary ops and "
                  "unit(x).in(unit) on all 8/16-bit values, +-512/+-4096 windows for 32/64-bit, every exponent x "
                  "mantissa patterns x sign for floating reps; expected value = raw operator on R, cases where the raw "
@@ -336,11 +353,12 @@ def check(run):
                  "the raw operator produced at least two different results (so agreement is not constant-vs-constant)."
                  % sum(1 for u in units if not u.lib)),
         "samples": samples,
-        "exhaustive": tier != "thorough" or f32["float_2pow32_complete"],
+        "exhaustive": len(done_cfgs) == len(sweep_cfgs) and (tier != "thorough" or f32["float_2pow32_complete"]),
         "exhaustive_note": ("complete over the stated finite alphabets (all 8-bit operand pairs, all 8/16-bit values, "
                             "all units x reps x configurations); 32/64-bit and double/long double values are covered on the "
                             "stated windows/structured alphabets only" +
-                            ("; float round trip over all 2^32 patterns" if f32["float_2pow32_complete"] else "")),
+                            ("; float round trip over all 2^32 patterns" if f32["float_2pow32_complete"] else "") +
+                            ("" if len(done_cfgs) == len(sweep_cfgs) else "; deadline guard stopped the value sweeps after %s" % done_cfgs)),
         "units_layout": len(units), "units_ops": len(ops_units), "configs": [str(c) for c in cfgs],
         "layout_facts_checked": n_layout, "result_types_checked": n_types, "result_type_mismatches": type_mismatch,
         "acceptance_probes": len(probes) * len(cfgs), "acceptance_rejected": n_rejected,
